@@ -678,7 +678,7 @@ def agree(case, i, ia, ma):
             amp = dec(head.split(":")[1])
             rel = max(MODEL_REL, 1.0e-12 * amp) if math.isfinite(amp) else 1.0
             a, b = parse_floats(ia), parse_floats(body)[:4]
-            return len(a) == 4 and all(close(u, v, rel, 1e-300) for u, v in zip(a, b))
+            return len(a) == 4 and all(close(u, v, rel, fl_) for u, v, fl_ in zip(a, b, cubic_floors(case, b[0], b[3])))
         if k == "tree":
             if i == 0:
                 return ia.split(" | ")[0] == ma
@@ -827,6 +827,14 @@ def raw_band_amp(a, b, c):
     return abs(F) > 1.0 - 3.0e-7, amp
 
 
+def cubic_floors(case, y, yc):
+    """y = (cube roots) - a/3 is a sum of terms of size comp = max(|y|, |a|/3); dy/da = -y^2/P', dy/db = -y/P' are
+    computed by the code as sums of terms of the sizes comp^2 |dy/dc|, comp |dy/dc|: entries far below that are
+    cancellation residue and are compared on that scale"""
+    comp = max(abs(y), abs(float(case["a"])) / 3.0)
+    return [comp, comp * comp * abs(yc), comp * abs(yc), 0.0]
+
+
 def oracle_cubic(case, ia):
     """the three root derivatives against the implicit-function values -y^2/P'(y), -y/P'(y), -1/P'(y) at the root the
     implementation returned (shares no formula with the Cardano / trigonometric chain rule)"""
@@ -844,8 +852,9 @@ def oracle_cubic(case, ia):
     if not abs(P) <= 1.0e-9 * amp * scale:
         return f"cubic-root: P(y) = {P!r} at the returned y = {y!r} (terms of size {scale:.3g})"
     rel = max(1.0e-7, 1.0e-11 * amp)
-    for name, got, want in (("a", ya, -y * y / dP), ("b", yb, -y / dP), ("c", yc, -1.0 / dP)):
-        if not close(got, want, rel, 1e-300):
+    floors = cubic_floors(case, y, -1.0 / dP)
+    for (name, got, want), fl_ in zip((("a", ya, -y * y / dP), ("b", yb, -y / dP), ("c", yc, -1.0 / dP)), floors[1:]):
+        if not close(got, want, rel, fl_):
             return f"cubic-d{name}: d y / d {name} = {got!r}, implicit differentiation gives {want!r} (root {case['k']}, y = {y!r})"
     return None
 
